@@ -7,7 +7,8 @@ class LtlHorizon(LtlAstVisitor):
 
     def __init__(self):
         self.horizons = dict()
-        # duration of one sample (next looks one sample ahead), in the unit the horizons are expressed in
+        # duration of one sample (next looks one sample ahead), in the unit the horizons are expressed in;
+        # None under the dense-time interpretation, where there are no samples and next has no meaning
         self.step = 1
 
     def visitConstant(self, node, *args, **kwargs):
@@ -169,11 +170,15 @@ class LtlHorizon(LtlAstVisitor):
         return op_horizon
 
     def visitNext(self, node, *args, **kwargs):
+        if self.step is None:
+            raise RTAMTException('Next operator not implemented in STL dense-time monitor.')
         op_horizon = self.visit(node.children[0], *args, **kwargs) + self.step
         self.horizons[node] = op_horizon
         return op_horizon
 
     def visitStrongNext(self, node, *args, **kwargs):
+        if self.step is None:
+            raise RTAMTException('Strong next operator not implemented in STL dense-time monitor.')
         op_horizon = self.visit(node.children[0], *args, **kwargs) + self.step
         self.horizons[node] = op_horizon
         return op_horizon
